@@ -208,17 +208,18 @@ static void print_elems(int kind, const Objects& o) {
     }
 }
 
-static void make_objects(Objects& o, int l, bool sig, unsigned long freemask) {
+static void make_objects(Objects& o, int l, bool sig, unsigned long freemask, bool highfree = false) {
+#define ISFREE(i) ((i) < 64 ? ((freemask >> (i)) & 1) != 0 : highfree)
     memset(&o, 0, sizeof o);
     o.l = l; o.sig = sig;
     o.wp.h = l ? (embedded_pairing_wkdibe_g1_t*) malloc(sizeof(embedded_pairing_wkdibe_g1_t) * (size_t) l) : NULL;
     embedded_pairing_wkdibe_setup(&o.wp, &o.wm, l, sig, rng_cb);
     // secret key: slots in freemask stay free, the others are fixed to random values
     int nfix = 0;
-    for (int i = 0; i < l; i++) if (!((freemask >> i) & 1)) nfix++;
+    for (int i = 0; i < l; i++) if (!ISFREE(i)) nfix++;
     embedded_pairing_wkdibe_attribute_t* at = nfix ? (embedded_pairing_wkdibe_attribute_t*) malloc(sizeof(*at) * (size_t) nfix) : NULL;
     int k = 0;
-    for (int i = 0; i < l; i++) if (!((freemask >> i) & 1)) { memset(&at[k], 0, sizeof at[k]); rng_cb(&at[k].id, 32); at[k].idx = (uint32_t) i; at[k].omitFromKeys = false; k++; }
+    for (int i = 0; i < l; i++) if (!ISFREE(i)) { memset(&at[k], 0, sizeof at[k]); rng_cb(&at[k].id, 32); at[k].idx = (uint32_t) i; at[k].omitFromKeys = false; k++; }
     embedded_pairing_wkdibe_attributelist_t al; al.attrs = at; al.length = (size_t) nfix; al.omitAllFromKeysUnlessPresent = false;
     int nfree = l - nfix;
     o.wsk.b = nfree ? (embedded_pairing_wkdibe_freeslot_t*) malloc(sizeof(embedded_pairing_wkdibe_freeslot_t) * (size_t) nfree) : NULL;
@@ -246,7 +247,25 @@ static size_t g_hash_inlen[2], g_hash_outlen[2];
 static void* g_hash_outptr[2];
 static int g_hash_calls, g_hash_slot;
 
+// mode 5 of `lq`: the caller's hash function itself uses the library (a complete decrypt for another identity) before it
+// reads its input - legal for a re-entrant library; the bytes it was handed must not change under it
+struct Nested { bool on; embedded_pairing_lqibe_ciphertext_t ct; embedded_pairing_lqibe_secretkey_t sk; embedded_pairing_lqibe_id_t id;
+                embedded_pairing_lqibe_params_t p; };
+static Nested g_nested;
+static void hash_plain(void* out, size_t outlen, const void* in, size_t inlen) {
+    uint8_t* o = (uint8_t*) out; const uint8_t* p = (const uint8_t*) in;
+    for (size_t i = 0; i < outlen; i++) o[i] = 0;
+    if (outlen) for (size_t i = 0; i < inlen; i++) o[i % outlen] ^= p[i];
+}
+
 void hash_rec(void* out, size_t outlen, const void* in, size_t inlen) {
+    if (g_nested.on) {
+        g_nested.on = false;
+        uint8_t k[16]; embedded_pairing_lqibe_ciphertext_t c2;
+        embedded_pairing_lqibe_decrypt(k, sizeof k, &g_nested.ct, &g_nested.sk, &g_nested.id, hash_plain);
+        embedded_pairing_lqibe_encrypt(&c2, k, sizeof k, &g_nested.p, &g_nested.id, hash_plain, rng_cb);
+        g_nested.on = true;
+    }
     int s = g_hash_slot & 1;
     g_hash_calls++;
     g_hash_inlen[s] = inlen; g_hash_outlen[s] = outlen; g_hash_outptr[s] = out;
@@ -262,7 +281,8 @@ void hash_rec(void* out, size_t outlen, const void* in, size_t inlen) {
 static void cmd_gen(void) {
     int l = (int) argi(1); bool sig = argi(2) != 0; unsigned long mask = strtoul(arg(3), NULL, 10);
     rng_seed(strtoull(arg(4), NULL, 10));
-    Objects o; make_objects(o, l, sig, mask);
+    bool highfree = g_ntok > 5 && argi(5) != 0;
+    Objects o; make_objects(o, l, sig, mask, highfree);
     for (int kind = 0; kind < NKIND; kind++) {
         for (int c = 1; c >= 0; c--) {
             size_t len = get_len(kind, o, c != 0);
@@ -334,6 +354,17 @@ static void cmd_lq(void) {
     embedded_pairing_lqibe_compute_id_from_hash(&id, &h);
     embedded_pairing_lqibe_keygen(&sk, &m, &id);
     Buf k1 = buf_alloc(keylen), k2 = buf_alloc(keylen);
+    g_nested.on = false;
+    if (mode == 5) {
+        // material for the nested calls: another identity under the same master key
+        embedded_pairing_lqibe_idhash_t h3 = h; h3.hash[20] ^= 0x5a; h3.hash[3] ^= 0x11;
+        embedded_pairing_lqibe_compute_id_from_hash(&g_nested.id, &h3);
+        embedded_pairing_lqibe_keygen(&g_nested.sk, &m, &g_nested.id);
+        uint8_t kk[16];
+        embedded_pairing_lqibe_encrypt(&g_nested.ct, kk, sizeof kk, &p, &g_nested.id, hash_plain, rng_cb);
+        g_nested.p = p;
+        g_nested.on = true;
+    }
     g_hash_calls = 0; g_hash_slot = 0;
     embedded_pairing_lqibe_encrypt(&ct, k1.p, keylen, &p, &id, hash_rec, rng_cb);
     embedded_pairing_lqibe_secretkey_t sk2 = sk; embedded_pairing_lqibe_id_t id2 = id; embedded_pairing_lqibe_ciphertext_t ct2 = ct;
@@ -349,6 +380,7 @@ static void cmd_lq(void) {
     }
     g_hash_slot = 1;
     embedded_pairing_lqibe_decrypt(k2.p, keylen, &ct2, &sk2, &id2, hash_rec);
+    g_nested.on = false;
     printf(" calls=%d inlen=%zu,%zu outlen=%zu,%zu outptr=%d,%d same_input=%d same_key=%d", g_hash_calls, g_hash_inlen[0], g_hash_inlen[1], g_hash_outlen[0], g_hash_outlen[1],
            (int) (g_hash_outptr[0] == k1.p), (int) (g_hash_outptr[1] == k2.p),
            (int) (g_hash_inlen[0] == g_hash_inlen[1] && memcmp(g_hash_in[0], g_hash_in[1], g_hash_inlen[0]) == 0), (int) (memcmp(k1.p, k2.p, keylen) == 0));
@@ -362,6 +394,40 @@ static void cmd_lq(void) {
     uint8_t eb[576]; e.write_big_endian(eb);
     printf(" pairing_matches=%d", (int) (g_hash_inlen[0] == 720 && memcmp(eb, g_hash_in[0] + 144, 576) == 0));
     buf_free(k1); buf_free(k2);
+}
+
+// length discovery alone, for every buffer length 1..maxlen (first byte given, rest zero)
+static void cmd_lens(void) {
+    int kind = kind_of(arg(1)); bool c = argi(2) != 0; int fb = (int) argi(3); size_t maxlen = (size_t) argu(4);
+    for (size_t n = 1; n <= maxlen; n++) {
+        Buf b = buf_alloc(n); memset(b.p, 0, n); b.p[0] = (uint8_t) fb;
+        int r = kind == WPARAMS ? embedded_pairing_wkdibe_params_unmarshalled_length(b.p, n, c) : embedded_pairing_wkdibe_secretkey_unmarshalled_length(b.p, n, c);
+        Objects o; memset(&o, 0, sizeof o); o.wp.l = -9; o.wsk.l = -9;
+        int r2 = kind == WPARAMS ? embedded_pairing_wkdibe_params_set_length(&o.wp, b.p, n, c) : embedded_pairing_wkdibe_secretkey_set_length(&o.wsk, b.p, n, c);
+        int stored = kind == WPARAMS ? o.wp.l : o.wsk.l;
+        // set_length must agree with unmarshalled_length and store the count only on success
+        if (r2 != r || stored != (r == -1 ? -9 : r)) printf(n == 1 ? " X%d" : ",X%d", r); else printf(n == 1 ? " %d" : ",%d", r);
+        buf_free(b);
+    }
+}
+
+// a single free slot with an arbitrary 32-bit index through the secret-key marshalling code
+static void cmd_slot(void) {
+    unsigned long idx = strtoul(arg(1), NULL, 10); bool c = argi(2) != 0;
+    embedded_pairing_wkdibe_secretkey_t sk; memset(&sk, 0, sizeof sk);
+    embedded_pairing_wkdibe_freeslot_t fs; memset(&fs, 0, sizeof fs);
+    *(G1*) &sk.a0 = G1::one; *(G2*) &sk.a1 = G2::one; *(G1*) &fs.hexp = G1::one; fs.idx = (uint32_t) idx;
+    sk.l = 1; sk.signatures = false; sk.b = &fs; *(G1*) &sk.bsig = G1::zero;
+    size_t len = embedded_pairing_wkdibe_secretkey_get_marshalled_length(&sk, c);
+    Buf b = buf_alloc(len); memset(b.p, 0xee, len);
+    embedded_pairing_wkdibe_secretkey_marshal(b.p, &sk, c);
+    embedded_pairing_wkdibe_secretkey_t r; embedded_pairing_wkdibe_freeslot_t rs; memset(&r, 0, sizeof r); memset(&rs, 0, sizeof rs);
+    int n = embedded_pairing_wkdibe_secretkey_set_length(&r, b.p, len, c);
+    r.b = &rs;
+    bool ok = n == 1 && embedded_pairing_wkdibe_secretkey_unmarshal(&r, b.p, c, true);
+    printf(" len=%zu ok=%d idx_back=%lu tail=", len, (int) ok, (unsigned long) rs.idx);
+    put(b.p + len - 4, 4);
+    buf_free(b);
 }
 
 // field / group / pairing operations on operands and results placed flush against guard pages: the assembly
@@ -415,6 +481,8 @@ int main(int argc, char** argv) {
         else if (!strcmp(op, "unm")) cmd_unm();
         else if (!strcmp(op, "lq")) cmd_lq();
         else if (!strcmp(op, "fieldguard")) cmd_fieldguard();
+        else if (!strcmp(op, "lens")) cmd_lens();
+        else if (!strcmp(op, "slot")) cmd_slot();
         else die("unknown op", op);
         putchar('\n');
         fflush(stdout);
